@@ -575,6 +575,17 @@ func (t *tokenizer) readOperator() (string, error) {
 	}
 
 	for isOperatorChar(c) {
+		if c == '/' {
+			// A '//' or '/*' starts a comment, also directly after an operator.
+			cs, err := t.peekN(2)
+			if err != nil && err != io.EOF {
+				return "", err
+			}
+			if len(cs) == 2 && (cs[1] == '/' || cs[1] == '*') {
+				break
+			}
+		}
+
 		ret.WriteByte(byte(c))
 		_, err = t.read()
 		if err != nil {
